@@ -313,8 +313,8 @@ Lemma same_shape_named stab d :
 Proof.
   intros Hm.
   assert (V : forall a v, get (tab_of d) a = Some v -> dom_at stab a <> None).
-  { intros a v H. unfold get in H. unfold tab, row in *.
-    destruct (nth_error (tab_of d) (fst a)) as [r|] eqn:Er; [|discriminate].
+  { intros a v H. unfold get in H.
+    match type of H with context [nth_error ?t ?k] => destruct (nth_error t k) as [r|] eqn:Er end; [|discriminate].
     destruct (same_shape_dom_at stab (tab_of d) (fst a) (snd a) Hm) as (r' & Hr' & Hc).
     { exists r. split; [exact Er|]. apply nth_error_Some. congruence. }
     unfold dom_at. rewrite Hr'. apply nth_error_Some. exact Hc. }
